@@ -89,6 +89,19 @@ impl<T: Write + Read + Seek> E57Writer<T> {
             // An XML namespace prefix cannot be bound to an empty namespace name
             Error::invalid("The URL of an extension must not be empty")?
         }
+        let reserved = [
+            // Elements with this namespace are standard E57 elements and no extension
+            "http://www.astm.org/COMMIT/E57/2010-e57-v1.0",
+            // These two namespaces are reserved by XML itself and cannot be declared
+            "http://www.w3.org/XML/1998/namespace",
+            "http://www.w3.org/2000/xmlns/",
+        ];
+        if reserved.contains(&extension.url.as_str()) {
+            let url = &extension.url;
+            Error::invalid(format!(
+                "The URL {url} is reserved and cannot be used for an extension"
+            ))?
+        }
         if self
             .extensions
             .iter()
